@@ -30,6 +30,13 @@ var logMethodNames =map[string]bool{"Debug": true, "Info": true, "Warn": true, "
 
 func (u *Unit) calleeName(c *ssa.CallCommon) string {
 	if c.IsInvoke() {
+		// name interface methods after the interface that declares them (KVDB embeds KV: a call
+		// of Get through a KVDB value is a call of KV.Get)
+		if sig, ok := c.Method.Type().(*types.Signature); ok && sig.Recv() != nil {
+			if n, ok := types.Unalias(sig.Recv().Type()).(*types.Named); ok {
+				return methodName(n, c.Method)
+			}
+		}
 		return methodName(c.Value.Type(), c.Method)
 	}
 	if fn := c.StaticCallee(); fn != nil {
@@ -210,6 +217,9 @@ func (u *Unit) resolveFrameItem(ct *Contract, item string) []string {
 		return nil
 	}
 	tn, f := item[:i], item[i+1:]
+	if _, ok := u.W.Ghosts["*."+f]; ok {
+		return []string{"GH:*." + f}
+	}
 	if !strings.Contains(tn, "/") && !strings.Contains(tn, ".") && ct.Pkg != "" {
 		tn = ct.Pkg + "." + tn
 	}
@@ -697,6 +707,22 @@ func (u *Unit) applyContract(fr *Frame, ct *Contract, name string, c *ssa.CallCo
 				}
 				continue
 			}
+			if i := strings.Index(f, "."); i > 0 {
+				// param.ghost : only the abstract state of that one object changes
+				if g, ok := u.W.Ghosts["*."+f[i+1:]]; ok {
+					done := false
+					for k, p := range params {
+						if p == f[:i] && k < len(args) {
+							h, key := u.wildGhost(st, g, args[k])
+							st.heaps["GH:*."+g.Field] = u.def(sto(h, key, u.fresh("gh_"+g.Field, g.Sort)))
+							done = true
+						}
+					}
+					if done {
+						continue
+					}
+				}
+			}
 			hs = append(hs, u.resolveFrameItem(ct, f)...)
 		}
 		for _, h := range hs {
@@ -733,7 +759,7 @@ func (u *Unit) applyContract(fr *Frame, ct *Contract, name string, c *ssa.CallCo
 		if ok {
 			u.assume(reach, f)
 		} else if ct.Kind == "trusted" {
-			u.specFail("clause of the trusted contract of %s cannot be evaluated at a call site: %s", name, en.Src)
+			u.specFail("clause of the trusted contract of %s cannot be evaluated at a call site (%s): %s", name, u.lastSpecErr, en.Src)
 		}
 	}
 	for _, en := range ct.AssumedEnsures {
@@ -824,7 +850,8 @@ func (u *Unit) havocAllocatesOnly(st *State, old *State) {
 			continue // already havocked by an explicit frame item
 		}
 		nh := u.fresh("H_"+mangle(n), s)
-		u.assume(tTrue, Term{fmt.Sprintf("(forall ((a Int)) (! (=> (< a %s) (= (select %s a) (select %s a))) :pattern ((select %s a))))", oldAlloc.S, nh.S, prev.S, nh.S), "Bool"})
+		u.assume(tTrue, Term{fmt.Sprintf("(forall ((a Int)) (! (=> (< a %s) (= (select %s a) %s)) :pattern ((select %s a))))", oldAlloc.S, nh.S, sel(prev, Term{"a", "Int"}).S, nh.S), "Bool"})
+		withSt(nh, &tstruct{kind: 'A', a: oldAlloc, b: prev})
 		st.heaps[n] = nh
 	}
 	na := u.fresh("alloc", "Int")
